@@ -119,6 +119,10 @@ Definition rule_event (I : instance) (ev : val) (w : rwld) : rwld * val :=
          let v := sfun_vec I fs d s in
          let '(w', res) := rule_score_based I s w in
          (w', enc_selres res (max_byb (score_at v) (available I d fs) (dec_key (vnth ev 2))) (vlist VI v))
+  (* 10: the scorer is used on another dispatcher in between; answered like a snapshot *)
+  | 10 => let w' := fst (scorer_forget (asN (vnth ev 1)) w) in
+          (w', VL [vlist enc_key (available I d fs); vlist vnat (subs w'); vlist enc_robs (objs w');
+                   enc_sched (sched d)])
   | _ => (w, VL [vlist enc_key (available I d fs); vlist vnat (subs w); vlist enc_robs (objs w);
                  enc_sched (sched d)])
   end.
